@@ -42,7 +42,8 @@ theorem fold_acc_exact {α : Type} [Sub α] [CoordIO α] (toI : Range α → Ran
     (hacc : ∀ (tot : Nat) (x : Range α), x ∈ m → 0 ≤ (toI x).length →
       (tot : Int) + (toI x).length < 2 ^ 64 →
       ((CoordIO.accLen tot x.length : Nat) : Int) = tot + (toI x).length)
-    (hm : MultiRange.Inv (m.map toI)) (hB : ∀ x ∈ m, (toI x).e < 2 ^ 64) :
+    (hm : MultiRange.Inv (m.map toI)) (hB : ∀ x ∈ m, (toI x).e < 2 ^ 63)
+    (hL : ∀ x ∈ m, -(2 : Int) ^ 63 ≤ (toI x).b) :
     (RangeCollection.totalLength m : Int) = ((m.map toI).map Range.length).sum := by
   suffices h : ∀ (pre : List (Range α)) (tot : Nat) (suf : List (Range α)), pre ++ suf = m →
       (tot : Int) = ((pre.map toI).map Range.length).sum →
@@ -66,12 +67,15 @@ theorem fold_acc_exact {α : Type} [Sub α] [CoordIO α] (toI : Range α → Ran
       · have : ((pre ++ [x] ++ xs).map toI).Pairwise R := by simpa [hp] using hm.2
         rw [List.map_append] at this
         exact (List.pairwise_append.mp this).1
-    have hb := sum_le_hull _ hpre ((2:Int)^64 - 1) 0
+    have hb := sum_le_hull _ hpre ((2:Int)^63 - 1) (-(2:Int)^63)
       (fun y hy => by
         simp only [List.mem_map] at hy
         obtain ⟨z, hz, e⟩ := hy
         have := hB z (hsub z hz); rw [e] at this; omega)
-      (fun y hy => (hpre.1 y hy).1) (by omega)
+      (fun y hy => by
+        simp only [List.mem_map] at hy
+        obtain ⟨z, hz, e⟩ := hy
+        have := hL z (hsub z hz); rw [e] at this; omega) (by omega)
     have hxpos := hm.1 (toI x) (by simp only [List.mem_map]; exact ⟨x, hxm, rfl⟩)
     simp only [List.map_append, List.map_cons, List.map_nil, List.sum_append, List.sum_cons, List.sum_nil] at hb ⊢
     rw [← ht] at hb ⊢
